@@ -61,6 +61,8 @@ Proof.
   - reflexivity.
   - destruct (Nat.leb _ _); [reflexivity|].
     destruct (is_running_obj _ _ _ _) as [[r ob'] ru']. reflexivity.
+  - destruct (n <? 0); [reflexivity|]. destruct (_ || _); [|reflexivity].
+    destruct (pids_sorted _) as [[l low]| |]; reflexivity.
 Qed.
 
 (* ---- kernel events keep the table well formed *)
